@@ -1019,7 +1019,8 @@ class ConfusionMatrix(Metric):
       ValueError: If the num_classes attribute is not equal to the number of
         output classes of the model.
     """
-    target = example[self.target_key]
+    # Index with int32: int8 targets cannot be normalized against 128+ classes.
+    target = jnp.asarray(example[self.target_key], jnp.int32)
     pred = prediction if self.pred_key is None else prediction[self.pred_key]
     if self.num_classes != len(pred):
       raise ValueError('Make sure num_classes is equal to the number of output '
